@@ -275,7 +275,11 @@ func (p *Packer) packWalkFn(root, src, dst string, tarW *tar.Writer, meta *Meta,
 				// the entry sits elsewhere than the link does on disk, so a
 				// relative target into the root is re-expressed from the
 				// entry's own position to keep naming the same path.
-				if src != dst && !filepath.IsAbs(target) {
+				// The same is done for a target that, taken as text from the
+				// entry's position, would climb above the archive root and come
+				// back in by way of the source directory's own name
+				// ("../src/x"): that name is not part of the archive.
+				if !filepath.IsAbs(target) && (src != dst || climbsAbove(filepath.Dir(subpath), target)) {
 					absTarget := filepath.Join(filepath.Dir(path), target)
 					if inRoot, err := filepath.Rel(root, absTarget); err == nil && inRoot != ".." && !strings.HasPrefix(inRoot, ".."+string(filepath.Separator)) {
 						if rel, err := filepath.Rel(filepath.Dir(filepath.Join(root, subpath)), absTarget); err == nil {
@@ -361,6 +365,31 @@ func (p *Packer) packWalkFn(root, src, dst string, tarW *tar.Writer, meta *Meta,
 
 		return nil
 	}
+}
+
+// climbsAbove reports whether target, followed segment by segment from the
+// slash- or separator-separated relative directory dir, ever rises above the
+// point dir is relative to.
+func climbsAbove(dir, target string) bool {
+	depth := 0
+	for _, seg := range strings.Split(filepath.ToSlash(dir), "/") {
+		if seg != "" && seg != "." {
+			depth++
+		}
+	}
+	for _, seg := range strings.Split(filepath.ToSlash(target), "/") {
+		switch seg {
+		case "", ".":
+		case "..":
+			depth--
+			if depth < 0 {
+				return true
+			}
+		default:
+			depth++
+		}
+	}
+	return false
 }
 
 // resolveExternalSymlink attempts to recursively follow target paths if we
